@@ -29,7 +29,7 @@ Reading of the source (trusted, like the rules at the top of exprtrans.py)
   state assertions as preconditions);
 * library calls are read as the primitives of `Model/PyPrims.lean`, one line each: `s.startswith(p)`,
   `s.split(None, 1)[0]`, `s.rstrip()`, `c in s`, `not s` (empty), `all(v == c for v in s)`, `np.array(s, dtype="c")`
-  (the characters), `np.where(a == c)[0]`, `a[0]`, `a[-1]`, `a[:-1]`, `a[1:]`, `np.diff(a)`, `a > k`, `m.any()`,
+  (the characters), `np.where(a == c)[0]` (also spelled `np.nonzero(a == c)[0]`), `a[0]`, `a[-1]`, `a[:-1]`, `a[1:]`, `np.diff(a)`, `a > k`, `m.any()`,
   `a[m]`, `a + k` (broadcast), `len(a)`, `x or 0`.
 """
 from __future__ import annotations
@@ -157,7 +157,8 @@ class Loop:
     def subscript(self, e, env):
         sl = e.slice
         # np.where(a == c)[0]
-        if isinstance(e.value, ast.Call) and ast.unparse(e.value.func) in ("np.where", "numpy.where") \
+        if isinstance(e.value, ast.Call) and ast.unparse(e.value.func) in ("np.where", "numpy.where", "np.nonzero",
+                                                                           "numpy.nonzero") \
                 and isinstance(sl, ast.Constant) and sl.value == 0 and len(e.value.args) == 1:
             c = e.value.args[0]
             if isinstance(c, ast.Compare) and len(c.ops) == 1 and isinstance(c.ops[0], ast.Eq):
